@@ -19,18 +19,17 @@ def background_range(clk, reset, addr_width):
         data_width=32,
     )
 
-    @concurrent
-    def background_axi():
-        axi.rdaddr.ready <<= True
+    # answer every request with a decode error (one response per request)
 
-        axi.rddata.valid <<= True
-        axi.rddata.rdata <<= cohdl.Null
-        axi.rddata.rresp <<= Axi4Light.RespConstants.DECERR
+    @sequential(clk, reset)
+    async def background_axi_read():
+        await axi.await_read_request()
+        await axi.send_read_resp(cohdl.Null, Axi4Light.RespConstants.DECERR)
 
-        axi.wraddr.ready <<= True
-        axi.wrdata.ready <<= True
-        axi.wrresp.valid <<= True
-        axi.wrresp.bresp <<= Axi4Light.RespConstants.DECERR
+    @sequential(clk, reset)
+    async def background_axi_write():
+        await axi.await_write_request()
+        await axi.send_write_response(Axi4Light.RespConstants.DECERR)
 
     return axi
 
